@@ -263,22 +263,69 @@ func zzSymTime24() (klog.Time, int) {
 func ZZ_Mut_Start() {
 	m := zzSetup()
 	t, off := zzSymTime24()
-	sumSel := zz.Choose(3)
+	sumSel := zz.Choose(3 + 3*zz.ParamOr("resume", 0))
 	var sum klog.EntrySummary
 	want := []string{""}
+	resume, resumeNth, noSuchEntry := false, 0, false
+	summaryOf := func(e parser.ZZEntry) []string {
+		if len(e.Summary) == 0 {
+			return []string{""}
+		}
+		return e.Summary
+	}
 	switch sumSel {
 	case 1:
 		sum, want = klog.EntrySummary{"work #dev"}, []string{"work #dev"}
 	case 2:
 		sum, want = klog.EntrySummary{"work", "more"}, []string{"work", "more"}
+	case 3: // --resume: summary of the record's last entry, else of the last entry of the latest earlier record
+		resume = true
+		if m.target >= 0 && len(m.model[m.target].Entries) > 0 {
+			es := m.model[m.target].Entries
+			want = summaryOf(es[len(es)-1])
+		} else {
+			best := -1
+			for i, r := range m.model {
+				if r.Date < m.today && (best < 0 || r.Date >= m.model[best].Date) {
+					best = i
+				}
+			}
+			if best >= 0 && len(m.model[best].Entries) > 0 {
+				es := m.model[best].Entries
+				want = summaryOf(es[len(es)-1])
+			}
+		}
+	case 4, 5: // --resume-nth 1 / -2: that entry of the target record, else an error
+		resumeNth = []int{1, -2}[sumSel-4]
+		n := 0
+		if m.target >= 0 {
+			n = len(m.model[m.target].Entries)
+		}
+		idx := resumeNth - 1
+		if resumeNth < 0 {
+			idx = n + resumeNth
+		}
+		if idx < 0 || idx >= n {
+			noSuchEntry = true
+		} else {
+			want = summaryOf(m.model[m.target].Entries[idx])
+		}
 	}
 	run := func(ctx *zzContext) app.Error {
 		c := &Start{}
 		c.Time = t
-		c.SummaryText = append(klog.EntrySummary{}, sum...)
+		if sum != nil {
+			c.SummaryText = append(klog.EntrySummary{}, sum...)
+		}
+		c.Resume, c.ResumeNth = resume, resumeNth
 		return c.Run(ctx)
 	}
 	err := run(m.ctx)
+	if noSuchEntry {
+		zz.Assert(err != nil, "resume-nth-fails-iff-no-such-entry")
+		zz.Assert(m.ctx.writes == 0 && m.ctx.fileText == m.before, "failed-command-leaves-file-untouched")
+		return
+	}
 	hasOpen := false
 	if m.target >= 0 {
 		for _, e := range m.model[m.target].Entries {
